@@ -39,6 +39,11 @@ CLAIMED = {
             "longest-length-form priority and rejection of long/long long/long double (R2), the `%%` escape (R3), char promotion (R4) and that each of the 2025 conversion tokens "
             "flag x width x precision x conversion is matched whole with the right capture (R5). Register/stack placement of the parameters is not decided.",
             "3/C20", "regex crate = leftmost-first semantics over regex-syntax HIR"),
+    "C22": ("item-table enumeration of CweModule statics vs. get_modules(); if/else-if chain and retain-predicate normal forms in run_with_ghidra with constants resolved to registry values; statement-order analysis on the top-level sequence",
+            "Decides the selection formula: registry completeness/uniqueness and module listing before any filter (R1); partial > kernel-module > default chain with exact predicates (default removes exactly "
+            "cwe_78::CWE_MODULE.name, LKM keeps exactly MODULES_LKM), no other mutation of the module list, every remaining module run once with config[module.name] (R2); partial filter by full-name equality with "
+            "panic on unknown names (R3). Which warnings a selected check emits is not decided.",
+            "3/C22", ""),
 }
 
 NOT_APPLICABLE = {
